@@ -65,10 +65,11 @@ class Responder:
             return 'INIT_OK', None
         return 'OTHER:' + ','.join(map(str, kinds)), None
 
-    def add_halfopen(self):
+    def add_halfopen(self, fill='distinct'):
         self.n_fill += 1
-        spi = b'\xF0' + self.n_fill.to_bytes(7, 'big')
-        nonce = bytes([self.n_fill]) * 24
+        k = self.n_fill if fill == 'distinct' else 1
+        spi = b'\xF0' + k.to_bytes(7, 'big')
+        nonce = bytes([self.n_fill if fill != 'replayed' else 1]) * 24
         reply, _, _ = self.send(init_request(spi, nonce, []), 'A')
         kind, ck = self.classify(reply)
         if kind == 'COOKIE':
@@ -118,12 +119,12 @@ def vectors_check(v, tier):
         r = Responder(threshold, seed=common.SEED)
         try:
             for _ in range(vec['h']):
-                r.add_halfopen()
+                r.add_halfopen(vec.get('fill', 'distinct'))
             reply, dh, left = r.send(init_request(SPI[t['spi']], NONCE[t['nonce']], cookies), t['addr'])
             kind, ck = r.classify(reply)
             exp = vec['out']
             n += 1
-            cls = (vec['h'] + 1 > threshold, len(vec['cookies']), exp['reply'], tuple(c[0] if c == ['junk'] else (f'cut{c[4]}' if c[0] == 'cut' else ('right' if c[1:] == [t['spi'], t['nonce'], t['addr']] else 'other')) for c in vec['cookies']))
+            cls = (vec['h'] + 1 > threshold, vec.get('fill'), len(vec['cookies']), exp['reply'], tuple(c[0] if c == ['junk'] else (f'cut{c[4]}' if c[0] == 'cut' else ('right' if c[1:] == [t['spi'], t['nonce'], t['addr']] else 'other')) for c in vec['cookies']))
             classes.add(cls)
             if len(samples) < 3 and exp['reply'] == 'COOKIE' and vec['cookies']:
                 samples.append({'half_open': vec['h'], 'tuple': t, 'cookies': vec['cookies'], 'expected': exp, 'observed': {'reply': kind, 'dh': dh, 'left': left}})
@@ -134,7 +135,7 @@ def vectors_check(v, tier):
             got = {'reply': kind, 'dh': dh, 'left': left}
             want = {'reply': exp['reply'], 'dh': exp['dh'], 'left': exp['left']}
             if got != want:
-                v.violation(f'half-open={vec["h"]} threshold={threshold} cookies={cls[3]}: expected {want}, observed {got}', {'vector': vec},
+                v.violation(f'half-open={vec["h"]} threshold={threshold} cookies={cls[4]} fill={cls[1]}: expected {want}, observed {got}', {'vector': vec},
                             signature={'component': 'cookie:outcome', 'expected': exp['reply'], 'observed': kind, 'dh': dh, 'left': left})
             elif kind == 'COOKIE' and ck != cookie_for(t, threshold, cache):
                 v.violation('the COOKIE handed out is not the one bound to this SPI, nonce and address', {'vector': vec},
